@@ -14,14 +14,24 @@ from pycoin.satoshi import checksigops
 MANIFEST = {
     "text": "Lean theorems over the model of the commitment (the temporary transaction of _signature_hash, the BIP143 message) and of the validation "
             "entry points: two legacy preimages are equal iff the committed projections (the blanked transaction) are equal (unique decoding of the wire "
-            "format), the BIP143 messages are equal iff their ten items are, the verdict of is_solution_ok depends only on the input's context and on the "
-            "answers of the sighash closures, unknown spent output => False, the per-call sighash cache is transparent, and tampering with a committed field "
-            "changes the digest/fails verification under explicit collision-resistance/unforgeability hypotheses. Tied to the code by histories: sign with "
-            "pycoin (P2PKH, P2PK, bare/P2SH/P2WSH multisig, P2WPKH, P2SH-P2WPKH; BTC/LTC/GRS/BCH/BTG; six standard hash types), then sequences of "
-            "single-field mutations interleaved with is_solution_ok/bad_solution_count on the same object and on a fresh parse; the implementation's "
-            "verdicts must equal what the hash types dictate (model) and an independent reference, and each other.",
+            "format; every script code, complete pushes or not) and, read back field by field, iff the listed fields are (legacyFields: version, lock "
+            "time, stripped script code, outpoints and sequences of the kept inputs with the other sequences read as zero under NONE/SINGLE and the "
+            "signed input alone under ANYONECANPAY, all / none / the one output at the input's position) for every hash-type word; SIGHASH_SINGLE "
+            "without a matching output commits nothing (constant 1<<248 whatever the transaction); the BIP143 / fork-id messages are equal iff their "
+            "ten items are and, the part hashes standing for the lists they digest (explicit hypotheses), iff the fields143 are (incl. the spent "
+            "amount; SINGLE without a matching output: zero hashOutputs, nothing of the outputs); the fork id folded into bits 8.. changes no flag; the "
+            "serialiser of the legacy message is injective in (transaction, hash type); the closures of check_solution read the state only through "
+            "the committed bytes, so equal committed bytes + equal input context => equal verdict of is_solution_ok (frame direction), with the "
+            "other inputs' unlocking data (all hash types) and the outputs under SIGHASH_NONE as proved instances; unknown spent output => False; the "
+            "per-call sighash cache is transparent; every answer of any history of validations and in-place changes on one object equals the fresh "
+            "computation; tampering with a committed field changes the digest/fails verification under explicit collision-resistance/unforgeability "
+            "hypotheses. Tied to the code by histories: sign with pycoin (P2PKH, P2PK, bare/P2SH/P2WSH multisig, P2WPKH, P2SH-P2WPKH; "
+            "BTC/LTC/GRS/BCH/BTG; six standard hash types), then sequences of single-field mutations interleaved with "
+            "is_solution_ok/bad_solution_count on the same object and on a fresh parse; the implementation's verdicts must equal what the hash types "
+            "dictate (model) and an independent reference, and each other.",
     "note": "The script interpreter is a parameter of the model (C03 covers it). 'Committed change => invalid' rests on SHA-256 collision resistance and "
-            "ECDSA unforgeability, stated as hypotheses of the theorem and observed on every generated case.",
+            "ECDSA unforgeability, stated as hypotheses of C06_tamper_fails_partial (and, for reading the BIP143 part hashes back as lists, of "
+            "C06_committed_fields_bip143) and observed on every generated case.",
     "technique": "Lean 4 proof (unique decoding / congruence over the sighash model) + differential histories on the real objects + reference oracle",
 }
 RULE = ("ops c06_from_db / c06_set_unspents / c06_parse_unspents (ways the unspents get populated: databases lacking the tx, with too few outputs, "
@@ -722,6 +732,34 @@ def gen(ctx, emit):
                         apply_step(coin, work, mp, cmd)
                         steps.append(cmd)
                     emit(head + " " + ";".join(steps))
+    # ---- signatures with DIFFERENT hash types inside one multisig input (cosigners signed in separate passes), next to inputs
+    # whose sequence numbers are then changed: what one digest computation leaves behind in the checker must not leak into
+    # the next digest of the same check (the ALL signature commits to the other inputs' sequences although a NONE/SINGLE
+    # signature of the same input, verified just before, does not)
+    for coin in COINS:
+        avail = {n for n, _s, _e in S.puzzles(coin)}
+        for ks in (["ms", "p2pkh"], ["p2pkh", "ms", "p2pk"], ["p2pkh", "p2sh_ms"], ["p2wsh_ms", "p2pkh"]):
+            if not set(ks) <= avail:
+                continue
+            for hts in ((2, 1), (3, 1), (0x82, 1), (1, 2), (2, 0x81)) if (ctx.thorough or coin == "btc") else (rng.choice([(2, 1), (3, 1), (1, 2)]),):
+                for seqs in ([0] * len(ks), [0xFFFFFFFE] * len(ks)):
+                    try:
+                        tx = S.sign_tx_mixed(coin, ks, hts, n_out=len(ks), sequences=seqs)
+                    except Exception as e:  # noqa: BLE001
+                        ctx.note("mixed hash-type signing raised %s (%s %s)" % (type(e).__name__, coin, ks))
+                        continue
+                    if tx.bad_solution_count() != 0:
+                        continue
+                    meta = meta_of(coin, tx)
+                    if meta is None:
+                        continue
+                    head = "c06_hist %s %s %s %s" % (coin, txlib.dump_tx(tx), show_us(S.us_of(tx)), meta)
+                    emit(head + " ~", "mixed-hash-types")
+                    for i in range(len(ks)):
+                        emit(head + " seq:%d:%d" % (i, seqs[i] ^ 5), "mixed-hash-types")
+                        emit(head + " seq:%d:%d;seq:%d:%d" % (i, seqs[i] ^ 5, i, seqs[i]), "mixed-hash-types")
+                    emit(head + " oval:0:%d" % (tx.txs_out[0].coin_value + 1), "mixed-hash-types")
+                    emit(head + " lock:%d" % 77, "mixed-hash-types")
     # ---- directed histories: another input's unspent missing while this one is tampered; revert restores validity
     for coin in COINS:
         for ht in (1, 0x81, 3):
